@@ -46,12 +46,12 @@ var HarnessDir = "/verif/harness"
 
 // Env is one working directory with built tools.
 type Env struct {
-	W          string // scratch root
-	PluginBin  string
-	GogoBin    string
-	WS         string // go workspace module dir
-	GoEnv      []string
-	BuildTags  string
+	W         string // scratch root
+	PluginBin string
+	GogoBin   string
+	WS        string // go workspace module dir
+	GoEnv     []string
+	BuildTags string
 }
 
 func goEnv() []string {
@@ -123,11 +123,11 @@ func NewEnv(w string) (*Env, error) {
 
 // Variant is one (descriptor, configuration) pair to generate.
 type Variant struct {
-	Key  string // directory name below ws/
-	D    absd.Desc
-	C    absd.Cfg
-	Seed int64 // 0 = canonical order of YAML / CLI entries
-	NoGogo bool // only run the plugin (process-level checks)
+	Key    string // directory name below ws/
+	D      absd.Desc
+	C      absd.Cfg
+	Seed   int64 // 0 = canonical order of YAML / CLI entries
+	NoGogo bool  // only run the plugin (process-level checks)
 }
 
 // FuncInfo is one top-level function of the generated file.
@@ -151,34 +151,34 @@ type AltResult struct {
 
 // GenResult is what was observed of one plugin run.
 type GenResult struct {
-	Key        string   `json:"key"`
-	Exit       int      `json:"exit"`
-	Stderr     string   `json:"-"`
-	StdoutLen  int      `json:"stdoutlen"`
-	DecodeOK   bool     `json:"decodeok"`  // stdout is exactly one well-formed response
-	RespError  string   `json:"resperror"` // response.error
-	Features   int      `json:"features"`
-	Files      []string `json:"files"`
-	FileBase   string   `json:"filebase"` // base name of the single output file
-	Content    string   `json:"-"`
-	Sha        string   `json:"sha"` // sha256 of the raw stdout
-	ContentSha string   `json:"contentsha"` // sha256 of the generated file
-	LicenseOK  bool     `json:"licenseok"`
-	Package    string   `json:"package"`
-	Funcs      []FuncInfo `json:"funcs"`
-	Types      []string `json:"typesdecl"` // top-level type declarations
-	Imports    []string `json:"imports"`
-	ParseErr   string   `json:"parseerr"`
-	Warned     []string `json:"warned"` // message names in "failed to build the message X" log lines
-	Processing []string `json:"processing"`
-	Compile    string   `json:"compile"` // "" ok, else compiler output (set by Build)
-	Param      string   `json:"param"`
-	Yaml       string   `json:"yaml"`
-	StructImport string `json:"structimport"`
-	TargetDir  string   `json:"-"`
-	TargetImport string `json:"targetimport"`
-	Registered []string `json:"registered"`
-	Alts       []AltResult `json:"alts"`
+	Key          string      `json:"key"`
+	Exit         int         `json:"exit"`
+	Stderr       string      `json:"-"`
+	StdoutLen    int         `json:"stdoutlen"`
+	DecodeOK     bool        `json:"decodeok"`  // stdout is exactly one well-formed response
+	RespError    string      `json:"resperror"` // response.error
+	Features     int         `json:"features"`
+	Files        []string    `json:"files"`
+	FileBase     string      `json:"filebase"` // base name of the single output file
+	Content      string      `json:"-"`
+	Sha          string      `json:"sha"`        // sha256 of the raw stdout
+	ContentSha   string      `json:"contentsha"` // sha256 of the generated file
+	LicenseOK    bool        `json:"licenseok"`
+	Package      string      `json:"package"`
+	Funcs        []FuncInfo  `json:"funcs"`
+	Types        []string    `json:"typesdecl"` // top-level type declarations
+	Imports      []string    `json:"imports"`
+	ParseErr     string      `json:"parseerr"`
+	Warned       []string    `json:"warned"` // message names in "failed to build the message X" log lines
+	Processing   []string    `json:"processing"`
+	Compile      string      `json:"compile"` // "" ok, else compiler output (set by Build)
+	Param        string      `json:"param"`
+	Yaml         string      `json:"yaml"`
+	StructImport string      `json:"structimport"`
+	TargetDir    string      `json:"-"`
+	TargetImport string      `json:"targetimport"`
+	Registered   []string    `json:"registered"`
+	Alts         []AltResult `json:"alts"`
 }
 
 // structDir: directory (= last import path element) of the struct package
